@@ -76,18 +76,28 @@ LEVEL_TEXT = ("Machine-checked proof (Coq, all inputs, Closed under the global c
 LEVEL_NOTE = ("Trusted: Coq kernel, the model, the harness encoder, the VF2 contracts (monitored, networkx is not verified). "
               "Theorems assume well-formed simple graphs and unmutated graph objects.")
 
-KEYS = {"hcount": 0, "element": 1, "charge": 2, "aromatic": 3, "order": 4}
+KEYS = {"hcount": 0, "element": 1, "charge": 2, "aromatic": 3, "order": 4, "atom_map": 5}
 
 
 # ------------------------------------------------------------------ implementation adapter
 
 def _engine(spec):
+    """spec["omit"]: constructor keywords left out (the spec then carries the DEFAULT value of that option)."""
     from synkit.Graph.Matcher.graph_matcher import GraphMatcherEngine
-    return GraphMatcherEngine(node_attrs=list(spec["na"]), edge_attrs=list(spec["ea"]), wl1_filter=spec["wl"],
-                              max_mappings=spec["mm"])
+    kw = dict(node_attrs=list(spec["na"]), edge_attrs=list(spec["ea"]), wl1_filter=spec["wl"], max_mappings=spec["mm"])
+    for k in spec.get("omit", ()):
+        assert {"node_attrs": spec["na"] == [], "edge_attrs": spec["ea"] == [], "wl1_filter": spec["wl"] is False,
+                "max_mappings": spec["mm"] == 1}[k], "omitted option must carry its default"
+        del kw[k]
+    if spec.get("none_lists"):            # node_attrs=None / edge_attrs=None instead of []
+        for k in ("node_attrs", "edge_attrs"):
+            if k in kw and kw[k] == []:
+                kw[k] = None
+    return GraphMatcherEngine(**kw)
 
 
 def _sub_call(q, gs):
+    """variant: sm / is / gm by keyword; smp / isp / gmp the same entry points with every option passed POSITIONALLY."""
     from synkit.Graph.Matcher.subgraph_matcher import SubgraphMatch
     from synkit.Graph.Matcher import graph_morphism as GM
     _, variant, c, p, filt, ctype, names, eattr = q
@@ -95,11 +105,26 @@ def _sub_call(q, gs):
     if variant == "sm":
         return SubgraphMatch.subgraph_isomorphism(gs[c], gs[p], node_label_names=nn, node_label_default=nd, edge_attribute=eattr,
                                                   use_filter=filt, check_type=ctype)
+    if variant == "smp":
+        return SubgraphMatch.subgraph_isomorphism(gs[c], gs[p], nn, nd, eattr, filt, ctype)
     if variant == "is":
         return SubgraphMatch.is_subgraph(gs[c], gs[p], node_label_names=nn, node_label_default=nd, edge_attribute=eattr,
                                          use_filter=filt, check_type=ctype, backend="nx")
+    if variant == "isp":
+        return SubgraphMatch.is_subgraph(gs[c], gs[p], nn, nd, eattr, filt, ctype, "nx")
+    if variant == "gmp":
+        return GM.subgraph_isomorphism(gs[c], gs[p], nn, nd, eattr, filt, ctype)
     return GM.subgraph_isomorphism(gs[c], gs[p], node_label_names=nn, node_label_default=nd, edge_attribute=eattr,
                                    use_filter=filt, check_type=ctype)
+
+
+def _edit_in_place(g, spec):
+    """Make the graph OBJECT g equal to the graph value spec (same object identity: caches keyed by object survive)."""
+    g.clear()
+    for n, a in spec["nodes"]:
+        g.add_node(n, **a)
+    for u, v, a in spec["edges"]:
+        g.add_edge(u, v, **a)
 
 
 def _determined(spec, h, p):
@@ -120,10 +145,16 @@ def _run_query(q, gs, engs, specs):
         return bool(_sub_call(q, gs))
     if k == "giso":
         return bool(GM.graph_isomorphism(gs[q[1]], gs[q[2]], use_defaults=True))
+    if k == "giso0":                      # use_defaults=False, no matchers: structure only
+        return bool(GM.graph_isomorphism(gs[q[1]], gs[q[2]]))
+    if k == "fgi":                        # ["fgi", i, j, use_defaults, fast_invariant_check] -> mapping or None ({} for two empty graphs)
+        return GM.find_graph_isomorphism(gs[q[1]], gs[q[2]], use_defaults=q[3], fast_invariant_check=q[4])
     raise AssertionError(k)
 
 
 def _obs(q, r, gs, specs):
+    if q[0] == "fgi":
+        return r is not None
     if q[0] != "maps":
         return r
     det = _determined(specs[q[1]], gs[q[2]], gs[q[3]])
@@ -147,10 +178,35 @@ def _cache_obs(case, gs):
     return S(out)
 
 
+def _spoil(r):
+    """The caller edits what an earlier call returned (a later answer must not depend on it)."""
+    if isinstance(r, list):
+        for m in r:
+            if isinstance(m, dict):
+                m.clear()
+                m["spoiled"] = -1
+        r.clear()
+    elif isinstance(r, dict):
+        r.clear()
+        r["spoiled"] = -1
+
+
+def _n_objects(case):
+    return case.get("objects", len(case["graphs"]))
+
+
 def impl(case):
-    gs = [G.to_nx(g) for g in case["graphs"]]
+    """graph OBJECTS = the first case["objects"] graphs (default: all); ["edit", i, k] edits object i in place into graph value k."""
+    gs = [G.to_nx(g) for g in case["graphs"][:_n_objects(case)]]
     engs = [_engine(s) for s in case["engines"]]
-    ans = [_obs(q, _run_query(q, gs, engs, case["engines"]), gs, case["engines"]) for q in case["queries"]]
+    ans = []
+    for q in case["queries"]:
+        if q[0] == "edit":
+            _edit_in_place(gs[q[1]], case["graphs"][q[2]])
+            continue
+        r = _run_query(q, gs, engs, case["engines"])
+        ans.append(_obs(q, r, gs, case["engines"]))
+        _spoil(r)
     return ans + [_cache_obs(case, gs)]
 
 
@@ -217,24 +273,45 @@ def coq_case(case):
         es = clist(["(Eng %s %s %s %s)" % (clist([cN(_key(k, dyn)) for k in s["na"]]), clist([cN(_key(k, dyn)) for k in s["ea"]]),
                                              cbool(s["wl"]), copt(None if s["mm"] is None else cN(s["mm"]))) for s in case["engines"]])
         qs = []
+        edits = any(q[0] == "edit" for q in case["queries"])
+        wrap = (lambda t: "(HQ %s)" % t) if edits else (lambda t: t)
         for q in case["queries"]:
             k = q[0]
-            if k in ("iso", "maps", "pre"):
-                qs.append("(%s %s %s %s)" % ({"iso": "QIso", "maps": "QMaps", "pre": "QPre"}[k], cnat(q[1]), cnat(q[2]), cnat(q[3])))
+            if k == "edit":
+                qs.append("(HEdit %s %s)" % (cnat(q[1]), cnat(q[2])))
+            elif k in ("iso", "maps", "pre"):
+                qs.append(wrap("(%s %s %s %s)" % ({"iso": "QIso", "maps": "QMaps", "pre": "QPre"}[k], cnat(q[1]), cnat(q[2]), cnat(q[3]))))
             elif k == "sub":
                 _, variant, c, p, filt, ctype, names, eattr = q
-                if "hcount" in [a for a, _ in names] or eattr == "hcount":
+                if eattr == "hcount":
                     return None
-                nm = clist(["(%s, %s)" % (cN(_key(a, dyn)), cN(codes(d))) for a, d in names])
-                qs.append("(QSub %s %s %s %s %s %s %s)" % (cbool(variant == "gm"), cnat(c), cnat(p), cbool(filt), cbool(ctype == "induced"), nm,
-                                                           copt(None if not eattr else cN(_key(eattr, dyn)))))
+                nml = []
+                for a, d in names:
+                    if a == "hcount":
+                        if isinstance(d, bool) or not isinstance(d, int) or d < 0:
+                            return None
+                        nml.append("(%s, %s)" % (cN(0), cN(d)))
+                    else:
+                        nml.append("(%s, %s)" % (cN(_key(a, dyn)), cN(codes(d))))
+                qs.append(wrap("(QSub %s %s %s %s %s %s %s)" % (cbool(variant.startswith("gm")), cnat(c), cnat(p), cbool(filt), cbool(ctype == "induced"),
+                                                                clist(nml), copt(None if not eattr else cN(_key(eattr, dyn))))))
+            elif k == "giso":
+                qs.append(wrap("(QGiso %s %s %s %s %s)" % (cnat(q[1]), cnat(q[2]), cN(codes("*")), cN(codes(0)), cN(codes(1)))))
+            elif k == "giso0":
+                qs.append(wrap("(QGiso0 %s %s)" % (cnat(q[1]), cnat(q[2]))))
+            elif k == "fgi":
+                qs.append(wrap("(QFgi %s %s %s %s %s %s %s)" % (cnat(q[1]), cnat(q[2]), cbool(q[3]), cbool(q[4]), cN(codes("*")), cN(codes(0)), cN(codes(1)))))
             else:
-                qs.append("(QGiso %s %s %s %s %s)" % (cnat(q[1]), cnat(q[2]), cN(codes("*")), cN(codes(0)), cN(codes(1))))
+                raise AssertionError(k)
     except TypeError:
         return None
     for g in case["graphs"]:
         if any(u == v for u, v, _ in g["edges"]):
             return None
+    if edits:
+        return "run_h %s %s %s %s" % (gs, cnat(_n_objects(case)), es, clist(qs))
+    if _n_objects(case) != len(case["graphs"]):
+        return None
     return "run %s %s %s" % (gs, es, clist(qs))
 
 
@@ -318,25 +395,45 @@ def oracle(case):
     def bad(clause, detail):
         fails.append(dict(clause=clause, detail=detail))
 
+    import copy
     specs = case["engines"]
-    gs = [G.to_nx(g) for g in case["graphs"]]
+    gs = [G.to_nx(g) for g in case["graphs"][:_n_objects(case)]]
     engs = [_engine(s) for s in specs]
-    fresh_graph = lambda i: G.to_nx(case["graphs"][i])
+    cur = list(range(len(gs)))                    # graph value currently held by each object
+    version = [0] * len(gs)                       # bumped by every in-place edit
+    cached = {}                                   # (object, node_attrs) -> version when a WL-filtering engine may have cached it
+    fresh_graph = lambda i: G.to_nx(case["graphs"][cur[i]])
     for t, q in enumerate(case["queries"]):
         if len(fails) >= 3:
             break
-        got = _run_query(q, gs, engs, specs)
+        if q[0] == "edit":
+            _edit_in_place(gs[q[1]], case["graphs"][q[2]])
+            cur[q[1]] = q[2]
+            version[q[1]] += 1
+            continue
+        got_raw = _run_query(q, gs, engs, specs)
+        got = copy.deepcopy(got_raw)
+        _spoil(got_raw)                           # the caller edits what it was handed; later answers must not care
         tag = "query %d %r" % (t, q)
         k = q[0]
         if k in ("iso", "maps", "pre"):
             spec = specs[q[1]]
+            if spec["wl"]:
+                # The class documents that its histogram cache goes stale when a graph is mutated in place: a query of a filtering
+                # engine that may read an entry older than the last edit of that object is outside the property (correspondence only).
+                keys = [(i, tuple(spec["na"])) for i in (q[2], q[3])]
+                stale = any(kk in cached and cached[kk] != version[kk[0]] for kk in keys)
+                for kk in keys:
+                    cached.setdefault(kk, version[kk[0]])
+                if stale:
+                    continue
             a, b = fresh_graph(q[2]), fresh_graph(q[3])
             fresh = _run_query(q, {q[2]: a, q[3]: b} if q[2] != q[3] else {q[2]: a}, {q[1]: _engine(spec)}, specs)
             if fresh != got:
                 bad("history-independent", "%s: answer in this history %r, answer of a fresh engine on fresh graph objects %r" % (tag, got, fresh))
                 continue
             a2, b2 = fresh_graph(q[2]), fresh_graph(q[3])
-            other = _run_query(q, {q[2]: a2, q[3]: b2} if q[2] != q[3] else {q[2]: a2}, {q[1]: _engine(dict(spec, wl=not spec["wl"]))}, specs)
+            other = _run_query(q, {q[2]: a2, q[3]: b2} if q[2] != q[3] else {q[2]: a2}, {q[1]: _engine(dict(spec, wl=not spec["wl"], omit=[x for x in spec.get("omit", ()) if x != "wl1_filter"]))}, specs)
             same = (other == got) if k != "maps" else ({frozenset(m.items()) for m in other} == {frozenset(m.items()) for m in got})
             if k != "pre" and not same:
                 bad("filter-neutral", "%s: wl1_filter=%r gives %r, wl1_filter=%r gives %r" % (tag, spec["wl"], got, not spec["wl"], other))
@@ -371,7 +468,7 @@ def oracle(case):
                 if set(m.keys()) != set(P.nodes) or frozenset(m.items()) not in vset:
                     bad("embedding-valid", "%s: returned %r which is not a pattern->host embedding" % (tag, m))
                     break
-            if valid and not got:
+            if valid and not got and spec["mm"] != 0:
                 bad("embedding-found", "%s: pattern is contained (%d induced embeddings, e.g. %r) but nothing was returned" % (tag, len(valid), valid[0]))
         elif k == "pre":
             H, P = gs[q[2]], gs[q[3]]
@@ -391,6 +488,27 @@ def oracle(case):
             want = _iso_exists(gs[q[1]], gs[q[2]], nmatch, ematch)
             if got != want:
                 bad("iso-exact", "%s: graph_isomorphism %r, brute force %r" % (tag, got, want))
+        elif k == "giso0":
+            want = _iso_exists(gs[q[1]], gs[q[2]], lambda h, pp: True, lambda h, pp: True)
+            if got != want:
+                bad("iso-exact", "%s: graph_isomorphism(no matchers) %r, brute force (structure only) %r" % (tag, got, want))
+        elif k == "fgi":
+            g1, g2 = gs[q[1]], gs[q[2]]
+            if q[3]:
+                nmatch = lambda h, pp: all(h.get(a, d) == pp.get(a, d) for a, d in (("element", "*"), ("atom_map", 0), ("hcount", 0)))
+                ematch = lambda h, pp: h.get("order", 1) == pp.get("order", 1)
+            else:
+                nmatch = ematch = lambda h, pp: True
+            want = _iso_exists(g1, g2, nmatch, ematch)
+            if (got is not None) != want:
+                bad("iso-exact", "%s: find_graph_isomorphism returned %r, an isomorphism exists by brute force: %r" % (tag, got, want))
+            elif got is not None:
+                ok = (set(got.keys()) == set(g1.nodes) and set(got.values()) == set(g2.nodes) and len(set(got.values())) == len(got)
+                      and all(nmatch(g1.nodes[u], g2.nodes[v]) for u, v in got.items())
+                      and all(g1.has_edge(u, v) == g2.has_edge(got[u], got[v]) for u in g1 for v in g1 if u != v)
+                      and all(ematch(g1[u][v], g2[got[u]][got[v]]) for u, v in g1.edges))
+                if not ok:
+                    bad("embedding-valid", "%s: find_graph_isomorphism returned %r which is not an isomorphism G1 -> G2" % (tag, got))
     return fails[:3]
 
 
@@ -433,7 +551,7 @@ def distribution(cases, obss):
             if q[0] == "maps" and len(c["graphs"][q[3]]["nodes"]) < len(c["graphs"][q[2]]["nodes"]):
                 d["maps_proper_subpattern"] += 1
         if isinstance(obs, list) and not (obs and obs[0] == "EXC"):
-            for q, o in zip(c["queries"], obs):
+            for q, o in zip([q for q in c["queries"] if q[0] != "edit"], obs):
                 if q[0] == "maps" and isinstance(o, list) and o[0] > 0:
                     d["maps_nonempty"] += 1
             for v in _verdicts(obs):
@@ -475,6 +593,11 @@ def neighbours(case, rng):
 
 E_FULL = {"na": ["element", "charge"], "ea": ["order"], "wl": False, "mm": None}
 NAMES_DEF = [["element", "*"], ["charge", 0]]
+# permuted / reduced / empty / extended selections, custom defaults (a default equal to a value that occurs: absent == that value)
+NAMES_ALT = [[["element", "*"], ["charge", 0]], [["charge", 0], ["element", "*"]], [["element", "*"]], [["charge", 0]], [],
+             [["element", "C"], ["charge", 0]], [["element", "*"], ["charge", 1]], [["charge", -1]],
+             [["element", "*"], ["charge", 0], ["hcount", 0]], [["hcount", 1], ["element", "*"]], [["element", "*"], ["aromatic", False]],
+             [["element", ""], ["charge", 0.0]]]
 
 
 def _engines(rng):
@@ -489,10 +612,17 @@ def _engines(rng):
         es.append({"na": list(na), "ea": list(ea), "wl": rng.random() < 0.7, "mm": rng.choice([None, None, 1, 2])})
     if rng.random() < 0.25:
         es[rng.choice([2, 3])] = {"na": ["charge", "element"], "ea": ["order"], "wl": True, "mm": None}
+    z = rng.random()
+    if z < 0.08:       # GraphMatcherEngine(): every option at its default (no attributes, no filter, max_mappings=1)
+        es[3] = {"na": [], "ea": [], "wl": False, "mm": 1, "omit": ["node_attrs", "edge_attrs", "wl1_filter", "max_mappings"]}
+    elif z < 0.14:     # attribute lists given as None; default max_mappings
+        es[3] = {"na": [], "ea": [], "wl": rng.random() < 0.5, "mm": 1, "omit": ["max_mappings"], "none_lists": True}
+    elif z < 0.20:     # max_mappings=0 / a large limit
+        es[3] = dict(es[3], mm=rng.choice([0, 0, 50]))
     return es
 
 
-def _battery(rng, pairs, n_eng, subs=True, nosubs=()):
+def _battery(rng, pairs, n_eng, subs=True, nosubs=(), alt=True):
     """A shuffled battery of queries over the given ordered graph-index pairs (no boolean-subgraph queries for pairs in nosubs)."""
     qs = []
     all_subs = subs
@@ -510,9 +640,19 @@ def _battery(rng, pairs, n_eng, subs=True, nosubs=()):
                         qs.append(["sub", variant, j, i, filt, ctype, NAMES_DEF, "order"])
             if rng.random() < 0.3:
                 qs.append(["sub", "is", j, i, rng.random() < 0.5, rng.choice(["induced", "mono"]), [["element", "*"]], "order"])
-            if rng.random() < 0.3:   # edge_attribute=None is only accepted by graph_morphism.subgraph_isomorphism
-                qs.append(["sub", "gm", j, i, rng.random() < 0.5, rng.choice(["induced", "mono"]), [["element", "*"]], None])
+            if rng.random() < 0.3:
+                # edge_attribute=None is only accepted by graph_morphism.subgraph_isomorphism (generic_edge_match(None, ...) raises)
+                qs.append(["sub", rng.choice(["gm", "gmp"]), j, i, rng.random() < 0.5, rng.choice(["induced", "mono"]), [["element", "*"]], None])
+            # every facade with its options passed positionally / other spellings of the options / other label selections
+            for _ in range(2 if alt else 0):     # (weak selections make the brute-force searches exponential on the 10+ node cases)
+                variant = rng.choice(["smp", "isp", "gmp", "is", "isp"])
+                qs.append(["sub", variant, j, i, rng.random() < 0.5, rng.choice(["induced", "mono", "monomorphism"]), rng.choice(NAMES_ALT),
+                           rng.choice(["order", "order", "", "standard_order"] + ([None] if variant == "gmp" else []))])
             qs.append(["giso", i, j])
+            if alt and rng.random() < 0.5:
+                qs.append(["giso0", i, j])
+            if rng.random() < 0.7:
+                qs.append(["fgi", i, j, rng.random() < 0.7 or not alt, rng.random() < 0.6])
     rng.shuffle(qs)
     return qs
 
@@ -580,8 +720,93 @@ def _cache_trio():
     return [g((1, 2), (0, 0)), g((7, 5), (0, -1)), g((4, 3), (0, 0)), ]
 
 
+def _edit_cp(g, rng):
+    """Count-preserving edit: one attribute value changes, nodes and edges stay."""
+    g = {"nodes": [[n, dict(a)] for n, a in g["nodes"]], "edges": [[u, v, dict(a)] for u, v, a in g["edges"]]}
+    z = rng.random()
+    if g["edges"] and z < 0.35:
+        e = rng.choice(g["edges"])[2]
+        e["order"] = rng.choice([x for x in (1, 2, 1.5) if x != e.get("order")])
+    elif g["nodes"]:
+        a = rng.choice(g["nodes"])[1]
+        if z < 0.7:
+            a["charge"] = rng.choice([x for x in (0, 1, -1) if x != a.get("charge")])
+        elif z < 0.85:
+            a["element"] = rng.choice([x for x in ("C", "O", "N") if x != a.get("element")])
+        else:
+            a["hcount"] = rng.choice([x for x in (0, 1, 2) if x != a.get("hcount")])
+    return g
+
+
+def _zoo():
+    """Degenerate values: empty graph, single nodes, attributes absent on some nodes / edges only, falsy values."""
+    def g(nodes, edges=()):
+        return {"nodes": [[n, dict(a)] for n, a in nodes], "edges": [[u, v, dict(a)] for u, v, a in edges]}
+    C0, Cn, O0 = {"element": "C", "charge": 0}, {"element": "C"}, {"element": "O", "charge": 0}
+    return [
+        g([]),
+        g([(1, {})]),
+        g([(1, C0)]), g([(1, Cn)]), g([(1, {"charge": 0})]), g([(1, {"element": "", "charge": 0.0})]),
+        g([(1, {"element": "C", "charge": 0, "hcount": 0})]), g([(1, {"element": "C", "charge": 0, "hcount": 1})]),
+        g([(1, {"element": "C", "charge": 0, "atom_map": 0})]), g([(1, {"element": "C", "charge": 0, "atom_map": 3})]),
+        g([(1, C0), (2, C0)]), g([(1, C0), (2, Cn)]), g([(1, {}), (2, {})]),
+        g([(1, C0), (2, C0)], [(1, 2, {"order": 1})]), g([(1, C0), (2, C0)], [(1, 2, {})]), g([(1, C0), (2, C0)], [(1, 2, {"order": 0})]),
+        g([(1, C0), (2, C0)], [(1, 2, {"order": 1.0, "standard_order": 0})]), g([(1, Cn), (2, O0)], [(1, 2, {"order": 1})]),
+        g([(1, C0), (2, {"element": "O"}), (3, C0)], [(1, 2, {"order": 1}), (2, 3, {"order": 1})]),
+        g([(1, Cn), (2, C0), (3, {"element": "C", "charge": 1})], [(1, 2, {"order": 1}), (2, 3, {"order": 1}), (1, 3, {"order": 1})]),
+        g([(1, Cn), (2, C0), (3, {"element": "C", "charge": 1}), (4, O0)], [(4, 1, {"order": 1}), (4, 2, {"order": 1}), (4, 3, {})]),
+    ]
+
+
 def gen_cases(tier, rng):
     cases = []
+    # ---- degenerate values: all ordered pairs of the zoo (second graph renumbered), every entry point
+    zoo = _zoo()
+    for a in zoo:
+        for b in zoo:
+            gs = [a, _present(b, rng)]
+            es = _engines(rng)
+            es[2] = {"na": ["element", "charge"], "ea": ["order"], "wl": True, "mm": 1, "omit": ["max_mappings"]}
+            if rng.random() < 0.5:
+                es[3] = {"na": ["charge"], "ea": [], "wl": True, "mm": None}
+            cases.append(dict(kind="degenerate", graphs=gs, engines=es, queries=_battery(rng, [(0, 1)], len(es))))
+    # ---- sizes >= 10 nodes (two-digit ids and counts): relabelled copy / one edit / planted sub-pattern
+    for t in range(12 if tier == "quick" else 60):
+        n = rng.randint(10, 14)
+        a = _rand_graph(rng, n, hc=rng.random() < 0.5)
+        z = t % 3
+        b = _present(a, rng, extra=90) if z == 0 else _edit(_present(a, rng, extra=90), rng) if z == 1 else \
+            _present(_sub_pattern(rng, a, induced=rng.random() < 0.5), rng, extra=90)
+        es = [dict(E_FULL), dict(E_FULL, wl=True), {"na": ["charge", "element"], "ea": ["order"], "wl": True, "mm": 2}]
+        cases.append(dict(kind="big", graphs=[a, b], engines=es, queries=_battery(rng, [(0, 1), (1, 0)], len(es), alt=False)))
+    # ---- graph OBJECTS edited in place between queries (count-preserving and count-changing edits), results spoiled by the caller
+    for _ in range(200 if tier == "quick" else 1500):
+        base = _rand_graph(rng, rng.randint(1, 5), hc=rng.random() < 0.5)
+        vals = [base, _present(base, rng, extra=9)]
+        vals.append(_edit_cp(vals[0], rng) if rng.random() < 0.7 else _edit(vals[0], rng))
+        vals.append(_edit_cp(vals[1], rng) if rng.random() < 0.7 else _edit(vals[1], rng))
+        es = _engines(rng)
+        for s in es:
+            if "wl1_filter" not in s.get("omit", ()):
+                s["wl"] = rng.random() < 0.5
+        def some(k):
+            out = []
+            for _ in range(k):
+                kind = rng.choice(["iso", "iso", "maps", "pre", "sub", "giso", "fgi"])
+                i, j = rng.choice([(0, 1), (1, 0), (0, 0)])
+                if kind in ("iso", "maps", "pre"):
+                    out.append([kind, rng.randrange(len(es)), i, j])
+                elif kind == "sub":
+                    out.append(["sub", rng.choice(["sm", "is", "gm", "isp"]), i, j, rng.random() < 0.5, rng.choice(["induced", "mono"]), NAMES_DEF, "order"])
+                elif kind == "giso":
+                    out.append(["giso", i, j])
+                else:
+                    out.append(["fgi", i, j, True, rng.random() < 0.5])
+            return out
+        qs = some(rng.randint(2, 5)) + [["edit", 0, 2]] + some(rng.randint(2, 5)) + [["edit", 1, 3]] + some(rng.randint(2, 4))
+        if rng.random() < 0.5:
+            qs += [["edit", 0, 0]] + some(rng.randint(1, 3))
+        cases.append(dict(kind="edited", graphs=vals, objects=2, engines=es, queries=qs))
     noh = {n: G.iso_classes(n, G.MOL_NODE_LABELS_NOH, G.MOL_EDGE_LABELS) for n in (1, 2, 3, 4)}
     wh = {n: G.iso_classes(n, G.MOL_NODE_LABELS, G.MOL_EDGE_LABELS) for n in (1, 2, 3)}
     # ---- all unordered pairs of iso classes (each also against a relabelled copy of itself)
@@ -667,7 +892,8 @@ def gen_cases(tier, rng):
         gs.append(_present(base, rng, extra=9))          # a second isomorphic copy: one of the two may be cached, the other new
         es = _engines(rng)
         for s in es:
-            s["wl"] = rng.random() < 0.8
+            if "wl1_filter" not in s.get("omit", ()):
+                s["wl"] = rng.random() < 0.8
         if rng.random() < 0.5:      # a pair of engines listing the same attributes in different orders, both filtering
             es[1] = {"na": ["element", "charge"], "ea": ["order"], "wl": True, "mm": None}
             es[2] = {"na": ["charge", "element"], "ea": ["order"], "wl": True, "mm": rng.choice([None, 1])}
